@@ -8,4 +8,4 @@ NOT_APPLICABLE = {}
 
 # Properties whose check has been reviewed by the coordinator and is registered in MANIFEST.json.
 # (A lib/props/<ID>.py file may exist earlier than that while its harness is still being built.)
-CLAIMED = ["C06", "C12"]
+CLAIMED = ["C06", "C12", "C14"]
